@@ -539,6 +539,19 @@ struct Interp1
       { // integer division by zero is the caller's error, not the container's
         if (which == 3 && std::any_of(mt.v.begin(), mt.v.end(), [](const T& e) { return e == 0; }))
           return Result::pass();
+        // so is signed overflow of the element type (undefined behaviour of int arithmetic, found by UBSan after ~100
+        // operations of a thorough-tier history): the operation is skipped when a result could leave +-2^30
+        double as = 0, at = 0;
+        for (const T& e : ms.v)
+          as = std::max(as, std::fabs(double(e)));
+        for (const T& e : mt.v)
+          at = std::max(at, std::fabs(double(e)));
+        const double bound = which == 2 ? as * at : (which == 3 ? as : as + at);
+        if (bound > 1073741824.)
+          {
+            stats().count("binary op skipped: int result could overflow (caller's error)");
+            return Result::pass();
+          }
       }
     if constexpr (is_array)
       {
@@ -636,6 +649,19 @@ struct Interp1
         M1<T>& ms = m[s];
         const int which = int(((c % 7) + 7) % 7);
         const T val = T(int(d % 9) - 4);
+        if constexpr (std::is_same<T, int>::value)
+          { // signed overflow of the element type is the caller's error (see binary()): every result here is at most
+            // 4*|x| + 4*|y| + 4, so operands beyond 2^27 are not operated on any further
+            double a = 0;
+            for (int k : { s, t, (t + 1) % NS })
+              for (const T& e : m[k].v)
+                a = std::max(a, std::fabs(double(e)));
+            if (a > 134217728.)
+              {
+                stats().count("numeric op skipped: int result could overflow (caller's error)");
+                return Result::pass();
+              }
+          }
         switch (which)
           {
           case 0: x += val; for (auto& e : ms.v) e += val; break;
